@@ -741,6 +741,11 @@ func (e *Exec) havocLocs(sets map[string]*locSet) {
 		cur := e.heapGet(k, sortS)
 		src := e.fresh("Hv."+k, sortS)
 		for _, r := range ls.refs {
+			if strings.HasPrefix(k, "map#") && r != "0" {
+				// contents of a map that may be nil: the nil map has nothing to forget (and stays empty)
+				cur = mkStore(cur, r, mkIte(mkEq(r, "0"), mkSelect(cur, r), sx("select", src, r)))
+				continue
+			}
 			cur = mkStore(cur, r, sx("select", src, r))
 		}
 		e.heapSet(k, sortS, cur)
